@@ -128,8 +128,15 @@ def _run_shard_pyopt(args):
     code = ("import json,sys\nfrom vf import core\nargs=json.loads(sys.stdin.read())\n"
             "r=core._run_shard(tuple(args))\nr['nontrivial']=sorted(r['nontrivial'])\nr['assertions_stripped']=not __debug__\nsys.stdout.write('\\nVFRESULT'+json.dumps(r))\n")
     try:
-        p = subprocess.run([sys.executable, "-O", "-W", "ignore::DeprecationWarning", "-c", code], input=json.dumps([prop, tier, seed, name, kw, budget]).encode(),
-                           capture_output=True, timeout=(budget or 600) + 300, env=dict(os.environ))
+        mode = kwargs["_pyopt"]
+        env = dict(os.environ)
+        argv = [sys.executable, "-W", "ignore::DeprecationWarning"]
+        if mode in (True, "opt", "opt+hashseed"):
+            argv.insert(1, "-O")
+        if mode in ("hashseed", "opt+hashseed"):
+            env["PYTHONHASHSEED"] = str(1 + (int(seed) * 7919 + len(name)) % 4000000)      # another string-hash seed than the parent's
+        p = subprocess.run(argv + ["-c", code], input=json.dumps([prop, tier, seed, name, kw, budget]).encode(),
+                           capture_output=True, timeout=(budget or 600) + 300, env=env)
         out = p.stdout.decode()
         r = json.loads(out[out.rindex("VFRESULT") + 8:])
     except Exception as e:  # child failed: harness problem, not a verdict
@@ -138,7 +145,7 @@ def _run_shard_pyopt(args):
         r["crash"] = "python -O child failed: %r" % (e,)
         return r
     r["nontrivial"] = set(r["nontrivial"])
-    if not r.get("assertions_stripped"):
+    if kwargs["_pyopt"] in (True, "opt", "opt+hashseed") and not r.get("assertions_stripped"):
         r["crash"] = "child did not run with -O"
     r["classes"] = {"pyopt:" + k: v for k, v in r["classes"].items()}
     r["nontrivial"] = {"pyopt:" + k for k in r["nontrivial"]}
